@@ -64,8 +64,8 @@ theorem gen_binop_doc (strict : Bool) (op : Op) (a b : Operand) :
 theorem gen_neg_total (k : Kind) (hs : k.signed = true) (n : Int) :
     negate genD (.var k n) = .ok k (wrap k (-n)) ∧ negate genD (.const k n) = .ok k (wrap k (-n)) :=
   C03_neg_total genD gen_complete k hs n
-theorem gen_fused_eq_unfused (m : Mode) (kx : Kind) (nx : Int) (c : Operand) (hc : c.isConst = true) :
-    increment genD m kx nx c = stmtUnfused genD m .add kx nx c := C03_fused_eq_unfused genD gen_complete m kx nx c hc
+theorem gen_fused_eq_unfused (m : Mode) (kx : Kind) (nx : Int) (c : Operand) :
+    increment genD m kx nx c = stmtUnfused genD m .add kx nx c := C03_fused_eq_unfused_any genD gen_complete m kx nx c
 #print axioms gen_binop_doc
 #print axioms gen_fused_eq_unfused
 """
@@ -74,7 +74,7 @@ theorem gen_fused_eq_unfused (m : Mode) (kx : Kind) (nx : Int) (c : Operand) (hc
 def run(ctx):
     ctx.trusted += ["translator tools/extract_c03 (go/ast, fails closed)", "harnesses zz_verif_c03_test.go in bytecode/ and compiler/"]
     ctx.assumptions += ["ego.runtime.precision.error = false (default)", "operand values: integer kinds, int constants, float64 constants 0..127(.5)"]
-    ctx.lean_audit(required=["C03_binop_doc", "C03_wrap_bitvec", "C03_neg_total", "C03_fused_eq_unfused",
+    ctx.lean_audit(required=["C03_binop_doc", "C03_wrap_bitvec", "C03_neg_total", "C03_fused_eq_unfused", "C03_fused_eq_unfused_any",
                              "C03_incr_keeps_type", "C03_strict_lossless", "C03_const_adapts"])
     if not ctx.quick:
         ctx.leanchecker()
